@@ -108,6 +108,7 @@ OBJ_API = {"get", "has", "set", "delete", "get_getter", "get_setter", "define_ge
 def rule_key_discipline(ctx, rep, rid: str) -> None:
     rep.rule(rid, "in property get/set/delete the script-supplied key is only converted, compared with literals, tested for membership in literal name lists, passed to the object model's dictionary API or to the method-table factories", floor=20)
     vmcls = ctx.facts.vm_dispatcher()[0].cls
+    _CTX_FOR_KEYS[:] = [ctx]
     for name in ("_get_property", "_set_property", "_delete_property"):
         f = ctx.tree.find_method(vmcls, name)
         if f is None:
@@ -144,6 +145,43 @@ def rule_key_discipline(ctx, rep, rid: str) -> None:
                         rep.bad(rid, key, f"{m.qual} indexes {base} with a computed key", f"{m.module.rel}:{n.lineno}")
 
 
+_CTX_FOR_KEYS: List = []
+_SAFE_STR_METHODS = ("isascii", "isdigit", "isdecimal", "isalpha", "isalnum", "startswith", "endswith", "strip", "lower", "upper")
+
+
+def _pure_text_helper(ctx, n: ast.Name, call: ast.Call) -> bool:
+    """The key is handed to a module-level function of the repository that only inspects it as text: string
+    predicates, comparisons with literals, constant subscripts, int()/len()/str() -- nothing that could use it to
+    select an attribute, a dictionary entry or code."""
+    from ..util import bind_args
+
+    cs = ctx.cg.site_of_call.get(id(call))
+    if cs is None or cs.kind != "resolved" or not cs.targets:
+        return False
+    for g in cs.targets:
+        if isinstance(g.node, ast.Lambda) or g.parent is not None or g.cls is not None:
+            return False
+        pname = next((k for k, a in bind_args(call, g).items() if a is n), None)
+        if pname is None:
+            return False
+        for u in g.own_nodes():
+            if not (isinstance(u, ast.Name) and u.id == pname and isinstance(u.ctx, ast.Load)):
+                continue
+            q = getattr(u, "_parent", None)
+            if isinstance(q, ast.Attribute) and q.attr in _SAFE_STR_METHODS and isinstance(getattr(q, "_parent", None), ast.Call):
+                continue
+            if isinstance(q, ast.Compare) and all(isinstance(o, ast.Constant) for o in [q.left] + list(q.comparators) if o is not u):
+                continue
+            if isinstance(q, ast.Subscript) and q.value is u and isinstance(q.slice, ast.Constant):
+                continue
+            if isinstance(q, ast.Call) and isinstance(q.func, ast.Name) and q.func.id in ("int", "len", "str", "float") and u in q.args:
+                continue
+            if isinstance(q, (ast.BoolOp, ast.UnaryOp, ast.IfExp, ast.Return)):
+                continue
+            return False
+    return True
+
+
 def _key_use(n: ast.Name, p: Optional[ast.AST], literal_lists: Set[str]) -> Tuple[bool, str]:
     if isinstance(p, ast.Call):
         fn = p.func
@@ -154,6 +192,8 @@ def _key_use(n: ast.Name, p: Optional[ast.AST], literal_lists: Set[str]) -> Tupl
                 return True, f"object-api:{fn.attr}"
             if isinstance(fn, ast.Attribute) and norm(fn.value) == "self" and fn.attr.startswith("_make_") and fn.attr.endswith("_method"):
                 return True, "method-factory"
+            if isinstance(fn, ast.Name) and _CTX_FOR_KEYS and _pure_text_helper(_CTX_FOR_KEYS[0], n, p):
+                return True, f"text-helper:{fn.id}"
             return False, f"call:{short(fn, 30)}"
     if isinstance(p, ast.Compare):
         others = [p.left] + list(p.comparators)
